@@ -43,11 +43,12 @@ package node_manager
 //@   modifies nothing
 
 //@ func GetPeerPoolMap
-//@   property C32
+//@   property C32, C34
 //@   mode abstract
 //@   requires native != nil
 //@   modifies nothing
 //@   ensures err == nil ==> r0 != nil
+//@   ensures[c34-keyed-by-pubkey] err == nil ==> wfPool(r0)
 
 //@ func CheckConsensusSigns
 //@   property C32
@@ -92,7 +93,7 @@ package node_manager
 //@   ensures err == nil ==> (r0 == nil <==> Store[peerApplyKey(peerPubkey)] == None)
 
 //@ func RegisterCandidate
-//@   property C18
+//@   property C18, C34
 //@   mode abstract
 //@   requires native != nil && native.tx != nil
 //@   modifies Store
@@ -100,6 +101,14 @@ package node_manager
 //@   set after "err := utils.ValidateOwner(native, params.Address)" : wit := err == nil
 //@   callsite[c18-owner] ValidateOwner#1 requires arg1 == params.Address
 //@   ensures[c18-witness] Store != old(Store) ==> wit
+//@   -- C34: a blacklisted key cannot register; nor one that is already in the pool
+//@   ghost var gbk KeyT
+//@   ghost var ginpool bool = true
+//@   set after "peerPubkeyPrefix, err := hex.DecodeString(params.PeerPubkey)" : gbk := K2(utils.NodeManagerContractAddress, "blackList", peerPubkeyPrefix)
+//@   set after "_, ok := peerPoolMap.PeerPoolMap[params.PeerPubkey]" : ginpool := ok
+//@   ensures[c34-black-cannot-register] r1 == nil ==> old(Store)[gbk] == None
+//@   ensures[c34-not-in-pool] r1 == nil ==> !ginpool
+//@   callsite[c34-registers-param] putPeerApply#1 requires arg1 == params
 
 //@ func UnRegisterCandidate
 //@   property C18
@@ -114,7 +123,7 @@ package node_manager
 //@   ensures[c18-witness] Store != old(Store) ==> wit && ownerOK
 
 //@ func ApproveCandidate
-//@   property C33, C18, C32
+//@   property C33, C18, C32, C34
 //@   mode abstract
 //@   requires native != nil && native.tx != nil
 //@   modifies Store
@@ -130,6 +139,14 @@ package node_manager
 //@   -- C33: once approved and admitted to the pool, the application is no longer pending
 //@   ensures[c33-consumed] r1 == nil && fired ==> Store[rk] == None
 //@   ensures[c33-pending] !fired ==> forall k string :: Store[peerApplyKey(k)] == old(Store)[peerApplyKey(k)]
+//@   -- C34: a key without an index gets the next unused one and the counter moves past it; the new pool entry is a candidate
+//@   ghost var gci uint32
+//@   set after "candidateIndex, err := getCandidateIndex(native)" : gci := candidateIndex
+//@   assert[c34-fresh-index] before "newCandidateIndex := candidateIndex + 1" : peerPoolItem.Index == gci
+//@   callsite[c34-index-consumed] putCandidateIndex#1 requires arg1 == gci + 1
+//@   snapshot s1 after "peerPoolMap, err := GetPeerPoolMap(native, view)"
+//@   callsite[c34-added-as-candidate] putPeerPoolMap#1 requires arg1 == peerPoolMap && arg2 == view && has(arg1.PeerPoolMap, params.PeerPubkey) && arg1.PeerPoolMap[params.PeerPubkey] == peerPoolItem && peerPoolItem.Status == CandidateStatus
+//@   callsite[c34-others-unchanged] putPeerPoolMap#1 requires forall k string :: k != params.PeerPubkey ==> (has(arg1.PeerPoolMap, k) <==> at(s1, has(peerPoolMap.PeerPoolMap, k))) && (has(arg1.PeerPoolMap, k) ==> arg1.PeerPoolMap[k] == at(s1, peerPoolMap.PeerPoolMap[k]) && arg1.PeerPoolMap[k].Status == at(s1, peerPoolMap.PeerPoolMap[k].Status))
 
 //@ func CommitDpos
 //@   property C18
@@ -256,11 +273,10 @@ package node_manager
 //@   ensures source.off <= uint64(len(source.s))
 
 //@ func (*Status).Deserialization
-//@   property C04
-//@   mode abstract
+//@   property C04, C34
 //@   nopanic on
 //@   requires this != nil && source != nil && source.off <= uint64(len(source.s))
-//@   modifies *
+//@   modifies *this, source.off
 //@   ensures source.off <= uint64(len(source.s))
 
 //@ func (*BlackListItem).Deserialization
@@ -271,21 +287,25 @@ package node_manager
 //@   modifies *
 //@   ensures source.off <= uint64(len(source.s))
 
+// a decoded pool: every entry is stored under its own public key (so no public key occupies two entries and
+// distinct keys hold distinct items), entries are non-nil
+//@ spec wfPool(m *PeerPoolMap) bool = m != nil && !isnil(m.PeerPoolMap) && forall k string :: has(m.PeerPoolMap, k) ==> m.PeerPoolMap[k] != nil && m.PeerPoolMap[k].PeerPubkey == k
 //@ func (*PeerPoolMap).Deserialization
-//@   property C04
-//@   mode abstract
+//@   property C04, C34
 //@   nopanic on
 //@   requires this != nil && source != nil && source.off <= uint64(len(source.s))
-//@   modifies *
+//@   modifies this.PeerPoolMap, source.off
 //@   ensures source.off <= uint64(len(source.s))
+//@   ensures[c34-keyed-by-pubkey] r0 == nil ==> wfPool(this)
+//@   loop 1 modifies fresh
 //@   loop 1 invariant this != nil && source != nil && source.off <= uint64(len(source.s))
+//@   loop 1 invariant !isnil(peerPoolMap) && fresh(peerPoolMap) && forall k string :: has(peerPoolMap, k) ==> peerPoolMap[k] != nil && peerPoolMap[k].PeerPubkey == k && fresh(peerPoolMap[k])
 
 //@ func (*PeerPoolItem).Deserialization
-//@   property C04
-//@   mode abstract
+//@   property C04, C34
 //@   nopanic on
 //@   requires this != nil && source != nil && source.off <= uint64(len(source.s))
-//@   modifies *
+//@   modifies this.Index, this.PeerPubkey, this.Address, this.Status, source.off
 //@   ensures source.off <= uint64(len(source.s))
 
 //@ func (*GovernanceView).Deserialization
@@ -313,3 +333,104 @@ package node_manager
 //@   modifies *
 //@   ensures source.off <= uint64(len(source.s))
 
+
+// ---- C34: the validator pool across epochs --------------------------------------------------------------------
+// Epoch change: at most once per block (the view record remembers the height of the last change); the pool stored
+// for the next view is the current pool without quitting and blacklisted members, every candidate or consensus
+// member kept as a consensus member; the view advances by exactly one and records this block's height.
+//@ spec isActive(s Status) bool = s == CandidateStatus || s == ConsensusStatus
+//@ func executeCommitDpos
+//@   property C34
+//@   mode abstract
+//@   requires native != nil && native.tx != nil
+//@   modifies Store
+//@   ghost var gview uint32
+//@   ghost var gheight uint32
+//@   set after "governanceView, err := GetGovernanceView(native)" : gview := governanceView.View
+//@   set after "governanceView, err := GetGovernanceView(native)" : gheight := governanceView.Height
+//@   snapshot s0 before loop 1
+//@   ensures[c34-once-per-block] r0 == nil ==> gheight != native.height
+//@   callsite[c34-next-view] putPeerPoolMap#1 requires arg2 == gview + 1 && arg1 == peerPoolMap
+//@   callsite[c34-kept-are-consensus] putPeerPoolMap#1 requires forall k string :: has(arg1.PeerPoolMap, k) ==> arg1.PeerPoolMap[k].Status == ConsensusStatus || !(at(s0, isActive(peerPoolMap.PeerPoolMap[k].Status) || peerPoolMap.PeerPoolMap[k].Status == QuitingStatus || peerPoolMap.PeerPoolMap[k].Status == BlackStatus))
+//@   callsite[c34-exactly-active-kept] putPeerPoolMap#1 requires forall k string :: at(s0, has(peerPoolMap.PeerPoolMap, k)) ==> (has(arg1.PeerPoolMap, k) <==> !at(s0, peerPoolMap.PeerPoolMap[k].Status == QuitingStatus || peerPoolMap.PeerPoolMap[k].Status == BlackStatus))
+//@   callsite[c34-nothing-added] putPeerPoolMap#1 requires forall k string :: has(arg1.PeerPoolMap, k) ==> at(s0, has(peerPoolMap.PeerPoolMap, k)) && arg1.PeerPoolMap[k] == at(s0, peerPoolMap.PeerPoolMap[k])
+//@   callsite[c34-view-plus-one] putGovernanceView#1 requires arg1.View == gview + 1 && arg1.Height == native.height
+//@   loop 1 invariant peerPoolMap != nil && !isnil(peerPoolMap.PeerPoolMap) && peerPoolMap == at(s0, peerPoolMap) && peerPoolMap.PeerPoolMap == at(s0, peerPoolMap.PeerPoolMap)
+//@   loop 1 invariant forall k string :: has(peerPoolMap.PeerPoolMap, k) ==> at(s0, has(peerPoolMap.PeerPoolMap, k)) && peerPoolMap.PeerPoolMap[k] == at(s0, peerPoolMap.PeerPoolMap[k]) && peerPoolMap.PeerPoolMap[k] != nil && peerPoolMap.PeerPoolMap[k].PeerPubkey == k
+//@   -- visited keys: dropped exactly when quitting or blacklisted, otherwise active ones are consensus members now
+//@   loop 1 invariant forall a int :: 0 <= a && a < it1 ==> (has(peerPoolMap.PeerPoolMap, seq1[a]) <==> !at(s0, peerPoolMap.PeerPoolMap[seq1[a]].Status == QuitingStatus || peerPoolMap.PeerPoolMap[seq1[a]].Status == BlackStatus))
+//@   loop 1 invariant forall a int :: 0 <= a && a < it1 && has(peerPoolMap.PeerPoolMap, seq1[a]) ==> peerPoolMap.PeerPoolMap[seq1[a]].Status == ite(at(s0, isActive(peerPoolMap.PeerPoolMap[seq1[a]].Status)), ConsensusStatus, at(s0, peerPoolMap.PeerPoolMap[seq1[a]].Status))
+//@   -- keys not yet visited: untouched
+//@   loop 1 invariant forall a int :: it1 <= a && a < cnt1 ==> has(peerPoolMap.PeerPoolMap, seq1[a]) && peerPoolMap.PeerPoolMap[seq1[a]].Status == at(s0, peerPoolMap.PeerPoolMap[seq1[a]].Status)
+
+// Quitting: only the owner of an active pool entry, and only while more than MIN_PEER_NUM members are active
+// (gact is the number of candidate or consensus entries, counted by ghost code over the same iteration);
+// exactly that entry changes, to the quitting status.
+//@ func QuitNode
+//@   property C18, C34
+//@   mode abstract
+//@   requires native != nil && native.tx != nil
+//@   modifies Store
+//@   ghost var wit bool = false
+//@   ghost var ownerOK bool = false
+//@   ghost var gact int = 0
+//@   set after "err := utils.ValidateOwner(native, params.Address)" : wit := err == nil
+//@   set before "num := 0" : ownerOK := params.Address == peerPoolItem.Address && isActive(peerPoolItem.Status)
+//@   callsite[c18-owner] ValidateOwner#1 requires arg1 == params.Address
+//@   ensures[c18-witness] Store != old(Store) ==> wit && ownerOK
+//@   snapshot s0 before loop 1
+//@   set before "if peerPoolItem.Status == CandidateStatus || peerPoolItem.Status == ConsensusStatus" : gact := gact + ite(isActive(peerPoolItem.Status), 1, 0)
+//@   loop 1 invariant num == gact && 0 <= num && num <= it1
+//@   callsite[c34-min-active] putPeerPoolMap#1 requires gact > MIN_PEER_NUM
+//@   callsite[c34-same-members] putPeerPoolMap#1 requires arg1 == peerPoolMap && arg2 == view && forall k string :: (has(arg1.PeerPoolMap, k) <==> at(s0, has(peerPoolMap.PeerPoolMap, k))) && (has(arg1.PeerPoolMap, k) ==> arg1.PeerPoolMap[k] == at(s0, peerPoolMap.PeerPoolMap[k]))
+//@   callsite[c34-others-unchanged] putPeerPoolMap#1 requires forall k string :: has(arg1.PeerPoolMap, k) && k != params.PeerPubkey ==> arg1.PeerPoolMap[k].Status == at(s0, peerPoolMap.PeerPoolMap[k].Status)
+//@   callsite[c34-quitting] putPeerPoolMap#1 requires has(arg1.PeerPoolMap, params.PeerPubkey) && arg1.PeerPoolMap[params.PeerPubkey].Status == QuitingStatus && at(s0, isActive(peerPoolMap.PeerPoolMap[params.PeerPubkey].Status))
+
+// Blacklisting: a validator's witness and two thirds of the validators; only while at least MIN_PEER_NUM active
+// members remain after removing as many as are listed; exactly the listed entries change, to the black status,
+// and each gets a blacklist record; an epoch change follows when a consensus member was hit.
+//@ spec blackKey(pubkey string) KeyT = K2(utils.NodeManagerContractAddress, "blackList", hexDecode(pubkey))
+//@ func BlackNode
+//@   property C18, C32, C34
+//@   mode abstract
+//@   requires native != nil && native.tx != nil
+//@   modifies Store
+//@   ghost var wit bool = false
+//@   ghost var fired bool = false
+//@   ghost var gact int = 0
+//@   set after "err := utils.ValidateOwner(native, params.Address)" : wit := err == nil
+//@   set after "ok, err := CheckConsensusSigns(native, BLACK_NODE, input, params.Address)" : fired := ok && err == nil
+//@   callsite[c18-owner] ValidateOwner#1 requires arg1 == params.Address
+//@   callsite[c32-separation] CheckConsensusSigns#1 requires arg1 == "blackNode" && arg3 == params.Address
+//@   ensures[c18-witness] Store != old(Store) ==> wit
+//@   -- without the approval of two thirds only the approval record itself changes
+//@   ensures[c32-approved] !fired ==> (forall k string :: Store[blackKey(k)] == old(Store)[blackKey(k)]) && (forall v uint32 :: Store[poolKey(v)] == old(Store)[poolKey(v)]) && Store[viewKey()] == old(Store)[viewKey()]
+//@   snapshot s0 before loop 1
+//@   set before "if peerPoolItem.Status == CandidateStatus || peerPoolItem.Status == ConsensusStatus" : gact := gact + ite(isActive(peerPoolItem.Status), 1, 0)
+//@   loop 1 invariant num == gact && 0 <= num && num <= it1
+//@   loop 2 invariant num == gact
+//@   loop 3 invariant num == gact
+//@   loop 4 invariant num == gact && peerPoolMap != nil && peerPoolMap == at(s0, peerPoolMap) && peerPoolMap.PeerPoolMap == at(s0, peerPoolMap.PeerPoolMap) && view == at(s0, view)
+//@   loop 4 invariant forall k string :: (has(peerPoolMap.PeerPoolMap, k) <==> at(s0, has(peerPoolMap.PeerPoolMap, k))) && (has(peerPoolMap.PeerPoolMap, k) ==> peerPoolMap.PeerPoolMap[k] == at(s0, peerPoolMap.PeerPoolMap[k]) && peerPoolMap.PeerPoolMap[k] != nil && peerPoolMap.PeerPoolMap[k].PeerPubkey == k)
+//@   -- entries not among the listed keys processed so far keep their status; the processed ones are black
+//@   loop 4 invariant forall k string :: has(peerPoolMap.PeerPoolMap, k) && (forall a int :: 0 <= a && a < it4 ==> params.PeerPubkeyList[a] != k) ==> peerPoolMap.PeerPoolMap[k].Status == at(s0, peerPoolMap.PeerPoolMap[k].Status)
+//@   loop 4 invariant forall a int :: 0 <= a && a < it4 ==> has(peerPoolMap.PeerPoolMap, params.PeerPubkeyList[a]) && peerPoolMap.PeerPoolMap[params.PeerPubkeyList[a]].Status == BlackStatus
+//@   callsite[c34-min-active] putPeerPoolMap#1 requires gact >= MIN_PEER_NUM + len(params.PeerPubkeyList)
+//@   callsite[c34-same-members] putPeerPoolMap#1 requires arg1 == peerPoolMap && arg2 == view && forall k string :: (has(arg1.PeerPoolMap, k) <==> at(s0, has(peerPoolMap.PeerPoolMap, k))) && (has(arg1.PeerPoolMap, k) ==> arg1.PeerPoolMap[k] == at(s0, peerPoolMap.PeerPoolMap[k]))
+//@   callsite[c34-others-unchanged] putPeerPoolMap#1 requires forall k string :: has(arg1.PeerPoolMap, k) && (forall a int :: 0 <= a && a < len(params.PeerPubkeyList) ==> params.PeerPubkeyList[a] != k) ==> arg1.PeerPoolMap[k].Status == at(s0, peerPoolMap.PeerPoolMap[k].Status)
+//@   callsite[c34-listed-black] putPeerPoolMap#1 requires forall a int :: 0 <= a && a < len(params.PeerPubkeyList) ==> has(arg1.PeerPoolMap, params.PeerPubkeyList[a]) && arg1.PeerPoolMap[params.PeerPubkeyList[a]].Status == BlackStatus
+
+// Leaving the blacklist: a validator's witness and two thirds of the validators; only that key's record goes
+//@ func WhiteNode
+//@   property C18, C32, C34
+//@   mode abstract
+//@   requires native != nil && native.tx != nil
+//@   modifies Store
+//@   ghost var wit bool = false
+//@   ghost var fired bool = false
+//@   set after "err := utils.ValidateOwner(native, params.Address)" : wit := err == nil
+//@   set after "ok, err := CheckConsensusSigns(native, WHITE_NODE, []byte(params.PeerPubkey), params.Address)" : fired := ok && err == nil
+//@   callsite[c18-owner] ValidateOwner#1 requires arg1 == params.Address
+//@   callsite[c32-separation] CheckConsensusSigns#1 requires arg1 == "whiteNode" && bytes(arg2) == bytes(params.PeerPubkey) && arg3 == params.Address
+//@   ensures[c18-witness] Store != old(Store) ==> wit
+//@   ensures[c32-approved] !fired ==> forall k string :: Store[blackKey(k)] == old(Store)[blackKey(k)]
